@@ -26,6 +26,8 @@ structure Book (V : Value) (s : State) (v0 : Int) (rr : RowReord PS) : Prop wher
   faithful : ∀ leaf ∈ rr.leaves, leaf.value = s.leafValue V leaf.regions
   kb : keepBest v0 rr.leaves.reverse none =
     (rr.bestVal, if rr.improvement then some ⟨rr.bestVal, rr.bestRegions⟩ else none)
+  /-- the kept leaf is well-formed (for the registered cells `rr.cells` and the regions `rr.regions`) -/
+  bestwf : rr.improvement = true → LeafWF s rr.regions rr.cells rr.bestOrder rr.bestPositions
 
 theorem evalLeaf_fields (V : Value) (rr : RowReord PS) :
     (evalLeaf (pureStore V) rr).regions = rr.regions ∧ (evalLeaf (pureStore V) rr).cells = rr.cells ∧
@@ -36,13 +38,14 @@ theorem evalLeaf_fields (V : Value) (rr : RowReord PS) :
   split <;> exact ⟨rfl, rfl, rfl, rfl, rfl, rfl, rfl⟩
 
 theorem evalLeaf_book (V : Value) (s : State) (v0 : Int) (rr : RowReord PS) (hb : Book V s v0 rr)
-    (hf : V rr.store.1 rr.store.2 = s.leafValue V (leafRegions rr.regions rr.order rr.positions)) :
+    (hf : V rr.store.1 rr.store.2 = s.leafValue V (leafRegions rr.regions rr.order rr.positions))
+    (hwf : LeafWF s rr.regions rr.cells rr.order rr.positions) :
     Book V s v0 (evalLeaf (pureStore V) rr) := by
   have hkb := hb.kb
   unfold evalLeaf
   split
   · rename_i hlt
-    refine ⟨?_, ?_⟩
+    refine ⟨?_, ?_, fun _ => hwf⟩
     · intro leaf hl
       rcases List.mem_cons.1 hl with rfl | hl
       · exact hf
@@ -53,7 +56,7 @@ theorem evalLeaf_book (V : Value) (s : State) (v0 : Int) (rr : RowReord PS) (hb 
       simp only [this, if_true]
       rfl
   · rename_i hlt
-    refine ⟨?_, ?_⟩
+    refine ⟨?_, ?_, hb.bestwf⟩
     · intro leaf hl
       rcases List.mem_cons.1 hl with rfl | hl
       · exact hf
@@ -124,7 +127,7 @@ theorem Lists.transfer {s : State} {G : List RRegion} {cs : List Int} {k : Nat} 
     (ho' : ∀ (i : Nat) l, rr.order[i]? = some l → ∃ l', rr'.order[i]? = some l' ∧ l'.Perm l)
     (hy : ∀ d, d ∈ cs.drop k → rr'.store.2 d = rr.store.2 d)
     (hf : ∀ d, d ∉ cs → rr'.store.1 d = rr.store.1 d ∧ rr'.store.2 d = rr.store.2 d) : Lists s G cs k rr' := by
-  refine ⟨?_, ?_, ?_, ?_, ?_, ?_⟩
+  refine ⟨?_, ?_, ?_, ?_, ?_, ?_, ?_, ?_⟩
   · intro i l' hl'
     obtain ⟨l, hl, hp⟩ := ho i l' hl'
     exact hp.symm.nodup (h.nodup i l hl)
@@ -147,6 +150,13 @@ theorem Lists.transfer {s : State} {G : List RRegion} {cs : List Int} {k : Nat} 
   · intro d hd
     rw [(hf d hd).1, (hf d hd).2]
     exact h.frame d hd
+  · intro i l' g hl' hg hne
+    obtain ⟨l, hl, hp⟩ := ho i l' hl'
+    rw [allocatedWidth_perm s hp]
+    exact h.fits i l g hl hg (fun e => hne (by rw [e] at hp; exact hp.eq_nil))
+  · intro i l' g hl' hg c hc
+    obtain ⟨l, hl, hp⟩ := ho i l' hl'
+    exact h.allowed i l g hl hg c (hp.mem_iff.1 hc)
 
 theorem PostO.lists {V : Value} {s : State} {v0 : Int} {j : Nat} {rr rr' : RowReord PS} {G : List RRegion} {cs : List Int}
     (h : PostO V s v0 j rr rr') (hl : Lists s G cs 0 rr) : Lists s G cs 0 rr' := by
@@ -259,7 +269,8 @@ theorem runOrdering_spec (V : Value) (s : State) (G : List RRegion) (cs : List I
     unfold runOrdering
     obtain ⟨f1, f2, f3, f4, f5, f6, f7⟩ := evalLeaf_fields V rr
     exact ⟨f1, f2, f3, by rw [f4], fun i _ => by rw [f4], by rw [f5], fun d _ => by rw [f5], f6, f7,
-      evalLeaf_book V s v0 rr hb (leaf_store_eq V s G cs rr hs hl hx)⟩
+      evalLeaf_book V s v0 rr hb (leaf_store_eq V s G cs rr hs hl hx)
+        (by rw [hs.regions, hs.cells]; exact leaf_wf s G cs rr hs hl hx)⟩
   | j + 1, rr, hj, hs, hl, hx, hso, hb => by
     unfold runOrdering
     have hjl : j < rr.order.length := by rw [hs.olen]; omega
@@ -296,7 +307,7 @@ theorem runOrdering_spec (V : Value) (s : State) (G : List RRegion) (cs : List I
           have hne : ¬ j = i := by omega
           simp only [hne, if_false] at this
           exact h1.sorted i l hi this
-        have hb2 : Book V s v0 (setupRow (pureStore V) s j (nextPerm l1).2 rr1) := ⟨h1.book.faithful, h1.book.kb⟩
+        have hb2 : Book V s v0 (setupRow (pureStore V) s j (nextPerm l1).2 rr1) := ⟨h1.book.faithful, h1.book.kb, h1.book.bestwf⟩
         have post := runOrdering_spec V s G cs v0 hnn j _ (by omega) hs2 hl2 hx2 hso2 hb2
         have hord3 : (runOrdering (pureStore V) s j (setupRow (pureStore V) s j (nextPerm l1).2 rr1)).order =
             rr1.order.set j (nextPerm l1).2 := post.order
@@ -353,6 +364,6 @@ theorem runOrdering_spec (V : Value) (s : State) (G : List RRegion) (cs : List I
     have hord : rr1.order.set j (nextPerm (rr1.order.getD j [])).2 = rr.order := by
       rw [hrest, h1.order, List.set_set, set_of_some hl0]
     refine ⟨h1.shape.regions.trans hs.regions.symm, h1.shape.cells.trans hs.cells.symm, hord,
-      h1.shape.plen.trans hs.plen.symm, h1.pos, h1.sy, h1.sx, h1.fuel, h1.asrt, ⟨h1.book.faithful, h1.book.kb⟩⟩
+      h1.shape.plen.trans hs.plen.symm, h1.pos, h1.sy, h1.sx, h1.fuel, h1.asrt, ⟨h1.book.faithful, h1.book.kb, h1.book.bestwf⟩⟩
 
 end ColoVerif.DetPlace
